@@ -378,6 +378,28 @@ def rules(ctx, db):
             ctx.ob("R7", "finished-only-from-final-result:%s#%d" % (f.name, i), ok,
                    "the stream enters Finished (op handed back) only from the Ready branch of the final pop", f)
 
+    # zero-copy future: the op (and its buffer) is taken back only after the stream produced its final item
+    if any(n.startswith("compio_net::") for n in db.adts):
+        zp = db.methods(self_adt=r"^compio_net::socket::Zerocopy$", name="poll", trait=r"Future$")
+        if not zp:
+            ctx.missing("R7", "Zerocopy::poll")
+        for f in zp:
+            pn = [bb for bb, t in calls(f, r"poll_next_unpin$|Stream::poll_next$")]
+            tt2 = [bb for bb, t in calls(f, r"SubmitMulti::<T>::try_take$")]
+            ok = len(pn) == 1 and len(tt2) == 1 and guarded_by_variant(f, tt2[0], r"poll_next_unpin$|Stream::poll_next$", 0) is not None
+            ctx.ob("R7", "zerocopy-buffer-after-final-item", ok,
+                   "the zero-copy future takes the op back (try_take) only on the Ready edge of the stream's next item, "
+                   "i.e. after the kernel's release notification was delivered", f)
+            ctx.ob("R7", "zerocopy-never-forces-the-op-out", bool(calls(f, r"Result::<T, E>::expect$|Result::<T, E>::unwrap$")) and
+                   not calls(f, r"ManuallyDrop|mem::forget|ptr::read"),
+                   "a refused try_take is a panic, not a forced extraction of a still-submitted op", f)
+        sz = [f for f in db.fns.values() if f.id.startswith("compio_net::socket::submit_zerocopy::") and f.kind == "coroutine"]
+        for f in sz:
+            sm = [bb for bb, t in calls(f, r"submit_multi$")]
+            zn = [bb for bb, t in calls(f, r"socket::Zerocopy::<T>::new$")]
+            ctx.ob("R7", "zerocopy-op-stays-in-stream", bool(sm) and bool(zn) and f.cfg.dominates(sm[0], zn[0]) and not calls(f, r"SubmitMulti::<T>::try_take$"),
+                   "after the first (send) result the op stays inside the multishot stream, which the Zerocopy future owns", f)
+
     # ------------------------------------------------------------------ R8 pinned before init
     ini = [(f, bb, t) for f, bb, t in db.callers_of(r"compio_driver::control::Carrier::<T>::init$|compio_driver::sys::\w+::Carry::init$")
            if not f.blocks[bb]["cl"]]
